@@ -34,7 +34,11 @@ META = {
                   "(C03_real_xinst_refines), hence C03_real_blocks_are_model (on every back end and profile each block function equals "
                   "Model.ChaChaGuts.refill / refill_wide, JH.m_f8, Blake.put_block32/64, compressor_finalize) and C03_real_blocks_agree "
                   "(in every configuration of the three macros with SSE2 detected the dispatched function returns that value, never "
-                  "the unimplemented!() arm). Scalar code without a Machine (ChaCha::new, stream parameters) is outside this "
+                  "the unimplemented!() arm), and composed with C01/C14, C06, C04 (Proofs/Capstones.v): C03_real_chacha_block_eq_spec / "
+                  "C03_config_chacha_block_eq_spec (on every back end and in every configuration the narrow refill at counter k returns "
+                  "Spec.ChaCha.spec_block and the wide refill the four specified blocks), C03_real_jh_f8_eq_spec / C03_config_jh_f8_eq_spec "
+                  "(= Spec.JH.F8), C03_real_blake_compress_eq_spec / C03_config_blake_compress_eq_spec (= the specified compression "
+                  "function). Scalar code without a Machine (ChaCha::new, stream parameters) is outside this "
                   "statement. The tie to the code is the battery: every configuration "
                   "must reproduce the model's outputs and the model's selected Machine type, and all configurations must "
                   "agree with each other; a child process that dies (SIGILL/SIGSEGV) or panics is an outcome.",
